@@ -213,4 +213,224 @@ theorem encodeAck_length (status kind id : Nat) (scd : Bytes) :
     (encodeAck status kind id scd).length = 12 + scd.length := by
   simp [encodeAck]; omega
 
+/-! ## C. One transaction against a conforming device -/
+
+/-- chronological receive-side events of one transaction: `k` pending acks (each followed by
+the sleep it asks for), then the final ack. -/
+def recvEvents (bufLen id ms : Nat) (final : Bytes) : Nat → List Ev
+  | 0 => [.recv bufLen (.ok final)]
+  | k + 1 => .recv bufLen (.ok (pendingAck id ms)) :: .sleep ms :: recvEvents bufLen id ms final k
+
+/-- chronological events of one transaction. -/
+def txnEvents (bufLen : Nat) (cmd : Bytes) (id ms : Nat) (final : Bytes) (k : Nat) : List Ev :=
+  .send cmd none :: recvEvents bufLen id ms final k
+
+section Txn
+variable {σ M : Type} [MemLike M] {dev : Dev σ} {view : σ → View M} {lim : Limits}
+  {plan : Nat → Nat} {ms : Nat}
+
+theorem recvLoop_answer {α : Type} (hc : Conforming dev view lim plan ms) (p : Profile)
+    (scdAs : Ack.AckPacket → Ack.R α) (ackKind : Ack.ScdKind) (kindId id : Nat) (scd : Bytes)
+    (v : α) (hk : kindOfId kindId = some ackKind) (hnp : ackKind ≠ .pending)
+    (hid : id < 2 ^ 16) (hl : scd.length < 2 ^ 16) (hms : ms < 2 ^ 16)
+    (hv : scdAs ⟨⟨⟨0, .genCp .success⟩, ackKind, id, scd.length⟩, 12, scd⟩ = .ok v) :
+    ∀ (k retry : Nat) (s : St σ), k < retry → s.h.nextReqId = id → 16 ≤ s.h.bufLen →
+      12 + scd.length ≤ s.h.bufLen →
+      (view s.d).queue = answer k id ms (encodeAck STATUS_SUCCESS kindId id scd) →
+      ∃ s', recvLoop dev p scdAs ackKind retry s = (s', .ok v) ∧
+        s'.h = { s.h with nextReqId := (id + 1) % 2 ^ 16 } ∧
+        (view s'.d).mem = (view s.d).mem ∧ (view s'.d).queue = [] ∧
+        (view s'.d).txn = (view s.d).txn ∧
+        s'.logRev = (recvEvents s.h.bufLen id ms (encodeAck STATUS_SUCCESS kindId id scd) k).reverse
+          ++ s.logRev := by
+  intro k
+  induction k with
+  | zero =>
+    intro retry s hlt hsid hb16 hbl hq
+    obtain ⟨r, rfl⟩ : ∃ r, retry = r + 1 := ⟨retry - 1, by omega⟩
+    simp only [answer, List.replicate_zero, List.nil_append] at hq
+    obtain ⟨h2, hm, hq', ht⟩ := hc.recv_next s.d s.h.bufLen _ [] hq
+      (by rw [encodeAck_length]; omega)
+    rcases hrecv : dev.recv s.d s.h.bufLen with ⟨d, res⟩
+    rw [hrecv] at h2 hm hq' ht
+    simp only at h2 hm hq' ht
+    subst h2
+    have hparse := parse_encodeAck p kindId id scd ackKind hk hid hl
+    refine ⟨⟨{ s.h with nextReqId := (id + 1) % 2 ^ 16 }, d,
+      .recv s.h.bufLen (.ok (encodeAck STATUS_SUCCESS kindId id scd)) :: s.logRev⟩, ?_, ?_⟩
+    · simp only [recvLoop, hrecv, St.push, encodeAck_length, hparse, verifyAck, hsid]
+      rw [if_neg (by omega)]
+      simp only [ne_eq, not_true_eq_false, if_false, if_neg hnp, hv]
+    · refine ⟨rfl, hm, hq', ht, ?_⟩
+      simp [recvEvents]
+  | succ k ih =>
+    intro retry s hlt hsid hb16 hbl hq
+    obtain ⟨r, rfl⟩ : ∃ r, retry = r + 1 := ⟨retry - 1, by omega⟩
+    simp only [answer, List.replicate_succ, List.cons_append] at hq
+    obtain ⟨h2, hm, hq', ht⟩ := hc.recv_next s.d s.h.bufLen _ _ hq
+      (by simp only [pendingAck, encodeAck_length, List.length_append, toLE_length]; omega)
+    rcases hrecv : dev.recv s.d s.h.bufLen with ⟨d, res⟩
+    rw [hrecv] at h2 hm hq' ht
+    simp only at h2 hm hq' ht
+    subst h2
+    have hparse := parse_encodeAck p ACK_PENDING id (toLE 2 0 ++ toLE 2 ms) .pending (by decide) hid
+      (by simp)
+    have hpend := parseReservedU16_ok ms hms
+    obtain ⟨s', hs', hh, hmem, hqq, htx, hlog⟩ :=
+      ih r (((({ s with d := d } : St σ)).push (.recv s.h.bufLen (.ok (pendingAck id ms)))).push (.sleep ms))
+        (by omega) hsid hb16 hbl (by simpa [St.push, answer] using hq')
+    refine ⟨s', ?_, ?_⟩
+    · simp only [recvLoop, hrecv, St.push, pendingAck, encodeAck_length, hparse, verifyAck, hsid,
+        List.length_append, toLE_length]
+      rw [if_neg (by omega)]
+      simp only [ne_eq, not_true_eq_false, if_false, if_true, Ack.Pending.parse, hpend]
+      simpa only [St.push, pendingAck] using hs'
+    · refine ⟨by simpa [St.push] using hh, by simpa [St.push, hm] using hmem, hqq,
+        by simpa [St.push, ht] using htx, ?_⟩
+      simp only [St.push] at hlog
+      simp [hlog, recvEvents]
+
+theorem bufGrow_eq (s : St σ) (need : Nat) :
+    (if s.h.bufLen < need then ({ s with h := { s.h with bufLen := need } } : St σ) else s) =
+      { s with h := { s.h with bufLen := max s.h.bufLen need } } := by
+  obtain ⟨⟨id, cfg, bl, op, ab⟩, d, lg⟩ := s
+  simp only
+  split
+  · next h => rw [Nat.max_eq_right (by omega)]
+  · next h => rw [Nat.max_eq_left (by omega)]
+
+theorem maximumAckLen_ge (c : Cmd.Cmd) : 16 ≤ c.maximumAckLen := by
+  simp only [Cmd.Cmd.maximumAckLen, Cmd.ACK_HEADER_LENGTH, Cmd.MINIMUM_ACK_SCD_LENGTH]
+  omega
+
+/-- A transaction for a constructible command whose (conforming) answer is known. -/
+theorem sendCmd_conforming {α : Type} (hc : Conforming dev view lim plan ms) (p : Profile)
+    (scdAs : Ack.AckPacket → Ack.R α) (s : St σ) (c : Cmd.Cmd) (hcons : C09.Constructible p c)
+    (hid : s.h.nextReqId < 2 ^ 16) (hms : ms < 2 ^ 16) (kindId : Nat) (scd : Bytes) (v : α)
+    (mem' : M) (k : Nat)
+    (hk : kindOfId kindId = some (ackKindOf c)) (hnp : ackKindOf c ≠ .pending)
+    (hl : scd.length < 2 ^ 16) (hfit : 12 + scd.length ≤ c.maximumAckLen)
+    (hv : scdAs ⟨⟨⟨0, .genCp .success⟩, ackKindOf c, s.h.nextReqId, scd.length⟩, 12, scd⟩ = .ok v)
+    (hsend : (dev.send s.d (c.serialize s.h.nextReqId)).2 = none ∧
+      (view (dev.send s.d (c.serialize s.h.nextReqId)).1).mem = mem' ∧
+      (view (dev.send s.d (c.serialize s.h.nextReqId)).1).queue =
+        answer k s.h.nextReqId ms (encodeAck STATUS_SUCCESS kindId s.h.nextReqId scd) ∧
+      (view (dev.send s.d (c.serialize s.h.nextReqId)).1).txn = (view s.d).txn + 1)
+    (hplan : k < s.h.cfg.retry) :
+    ∃ s', sendCmd dev p scdAs s c = (s', .ok v) ∧
+      s'.h = { s.h with nextReqId := (s.h.nextReqId + 1) % 2 ^ 16,
+                        bufLen := max s.h.bufLen (max c.cmdLen c.maximumAckLen) } ∧
+      (view s'.d).mem = mem' ∧ (view s'.d).queue = [] ∧ (view s'.d).txn = (view s.d).txn + 1 ∧
+      s'.logRev = (txnEvents (max s.h.bufLen (max c.cmdLen c.maximumAckLen))
+        (c.serialize s.h.nextReqId) s.h.nextReqId ms
+        (encodeAck STATUS_SUCCESS kindId s.h.nextReqId scd) k).reverse ++ s.logRev := by
+  obtain ⟨hs2, hsm, hsq, hst⟩ := hsend
+  have hlen := (C09.len_agree p c s.h.nextReqId hcons).1
+  have hsink := (C09.sink_exact c s.h.nextReqId (max s.h.bufLen (max c.cmdLen c.maximumAckLen))).2.2.1
+    (by rw [hlen]; omega)
+  have h16 := maximumAckLen_ge c
+  rcases hsd : dev.send s.d (c.serialize s.h.nextReqId) with ⟨d, r⟩
+  rw [hsd] at hs2 hsm hsq hst
+  simp only at hs2 hsm hsq hst
+  subst hs2
+  obtain ⟨s', hs', hh, hmem, hqq, htx, hlog⟩ :=
+    recvLoop_answer hc p scdAs (ackKindOf c) kindId s.h.nextReqId scd v hk hnp hid hl hms hv k
+      s.h.cfg.retry
+      ((({ s with h := { s.h with bufLen := max s.h.bufLen (max c.cmdLen c.maximumAckLen) }, d := d } :
+        St σ)).push (.send (c.serialize s.h.nextReqId) none))
+      hplan rfl (by simp only [St.push]; omega) (by simp only [St.push]; omega)
+      (by simpa [St.push] using hsq)
+  refine ⟨s', ?_, ?_⟩
+  · simp only [sendCmd, bufGrow_eq, hsink, hlen, ne_eq, not_true_eq_false, if_false, hsd]
+    simpa only [St.push] using hs'
+  · refine ⟨by simpa [St.push] using hh, by simpa [St.push] using hmem.trans hsm, hqq,
+      by simpa [St.push] using htx.trans hst, ?_⟩
+    simp only [St.push] at hlog
+    simp [hlog, txnEvents]
+
+/-- ReadMem transaction against a conforming device. -/
+theorem sendCmd_read (hc : Conforming dev view lim plan ms) (p : Profile) (s : St σ) (a n : Nat)
+    (ha : a < 2 ^ 64) (hn : n < 2 ^ 16) (hid : s.h.nextReqId < 2 ^ 16) (hms : ms < 2 ^ 16)
+    (hcmd : 24 ≤ lim.maxCmd) (hack : 12 + n ≤ lim.maxAck) (hsp : a + n ≤ 2 ^ 64)
+    (hplan : plan (view s.d).txn < s.h.cfg.retry) :
+    ∃ s', sendCmd dev p (fun ack => Ack.ReadMem.parse ack.rawScd ack.ccd) s (.readMem ⟨a, n⟩) =
+        (s', .ok (readRange (view s.d).mem a n)) ∧
+      s'.h = { s.h with nextReqId := (s.h.nextReqId + 1) % 2 ^ 16,
+                        bufLen := max s.h.bufLen (max 24 (12 + max n 4)) } ∧
+      (view s'.d).mem = (view s.d).mem ∧ (view s'.d).queue = [] ∧
+      (view s'.d).txn = (view s.d).txn + 1 ∧
+      s'.logRev = (txnEvents (max s.h.bufLen (max 24 (12 + max n 4)))
+        ((Cmd.Cmd.readMem ⟨a, n⟩).serialize s.h.nextReqId) s.h.nextReqId ms
+        (readAck s.h.nextReqId (readRange (view s.d).mem a n)) (plan (view s.d).txn)).reverse
+        ++ s.logRev := by
+  have hcons : C09.Constructible p (.readMem ⟨a, n⟩) := .readMem _ ⟨ha, hn⟩
+  have hdec := C09.decode_serialize p (.readMem ⟨a, n⟩) s.h.nextReqId hcons hid
+  have hlen := (C09.len_agree p (.readMem ⟨a, n⟩) s.h.nextReqId hcons).1
+  simp only [C09.fields, C09.body, Spec.GenCP.scdLenOf] at hdec
+  have hsend := hc.send_read s.d _ _ _ _ _ hdec
+    (by rw [hlen]; simp only [Cmd.Cmd.cmdLen, Cmd.Cmd.scdLen, Cmd.CCD_LEN]; omega) hack hsp
+  have := sendCmd_conforming hc p (fun ack => Ack.ReadMem.parse ack.rawScd ack.ccd) s
+    (.readMem ⟨a, n⟩) hcons hid hms ACK_READ_MEM (readRange (view s.d).mem a n)
+    (readRange (view s.d).mem a n) (view s.d).mem (plan (view s.d).txn) rfl
+    (by simp [ackKindOf]) (by simpa using hn)
+    (by simp only [readRange_length, Cmd.Cmd.maximumAckLen, Cmd.Cmd.ackScdLen,
+          Cmd.ACK_HEADER_LENGTH, Cmd.MINIMUM_ACK_SCD_LENGTH]; omega)
+    (by simp only [Ack.ReadMem.parse, Ack.parseDataScd, Nat.lt_irrefl, if_false]
+        rw [List.take_of_length_le (Nat.le_refl _)])
+    (by simpa only [readAck] using hsend) hplan
+  simpa only [Cmd.Cmd.cmdLen, Cmd.Cmd.scdLen, Cmd.CCD_LEN, Cmd.Cmd.maximumAckLen,
+    Cmd.Cmd.ackScdLen, Cmd.ACK_HEADER_LENGTH, Cmd.MINIMUM_ACK_SCD_LENGTH, readAck,
+    Nat.reduceAdd] using this
+
+/-- WriteMem transaction against a conforming device. -/
+theorem sendCmd_write (hc : Conforming dev view lim plan ms) (p : Profile) (s : St σ)
+    (w : Cmd.WriteMem) (hw : C09.WriteMem.Built w) (hid : s.h.nextReqId < 2 ^ 16)
+    (hms : ms < 2 ^ 16) (hcmd : 20 + w.data.length ≤ lim.maxCmd) (hack : 16 ≤ lim.maxAck)
+    (hsp : w.address + w.data.length ≤ 2 ^ 64)
+    (hplan : plan (view s.d).txn < s.h.cfg.retry) :
+    ∃ s', sendCmd dev p (fun ack => Ack.WriteMem.parse ack.rawScd ack.ccd) s (.writeMem w) =
+        (s', .ok w.data.length) ∧
+      s'.h = { s.h with nextReqId := (s.h.nextReqId + 1) % 2 ^ 16,
+                        bufLen := max s.h.bufLen (max (20 + w.data.length) 16) } ∧
+      (view s'.d).mem = writeRange (view s.d).mem w.address w.data ∧ (view s'.d).queue = [] ∧
+      (view s'.d).txn = (view s.d).txn + 1 ∧
+      s'.logRev = (txnEvents (max s.h.bufLen (max (20 + w.data.length) 16))
+        ((Cmd.Cmd.writeMem w).serialize s.h.nextReqId) s.h.nextReqId ms
+        (writeAck s.h.nextReqId w.data.length) (plan (view s.d).txn)).reverse ++ s.logRev := by
+  have hcons : C09.Constructible p (.writeMem w) := .writeMem _ hw
+  have hdec := C09.decode_serialize p (.writeMem w) s.h.nextReqId hcons hid
+  have hla := C09.len_agree p (.writeMem w) s.h.nextReqId hcons
+  have hlen := hla.1
+  have hwl : w.len = w.data.length + 8 ∧ w.data.length + 8 ≤ U16_MAX := by
+    have := C09.ctor_refuses_writeMem w.address w.data
+    obtain ⟨_, hb⟩ := hw
+    by_cases hle : w.data.length + 8 ≤ U16_MAX
+    · have h2 := this.2.1 hle
+      rw [h2] at hb
+      injection hb with hb
+      exact ⟨by rw [← hb], hle⟩
+    · have h2 := this.1.2 (by omega)
+      rw [h2] at hb
+      cases hb
+  simp only [C09.fields, C09.body, Spec.GenCP.scdLenOf] at hdec
+  have hcl : (Cmd.Cmd.writeMem w).cmdLen = 20 + w.data.length := by
+    simp only [Cmd.Cmd.cmdLen, Cmd.Cmd.scdLen, Cmd.CCD_LEN, hwl.1]; omega
+  have hsend := hc.send_write s.d _ _ _ _ _ hdec (by rw [hlen, hcl]; exact hcmd) hack hsp
+  have hu := hwl.2
+  simp only [U16_MAX] at hu
+  have := sendCmd_conforming hc p (fun ack => Ack.WriteMem.parse ack.rawScd ack.ccd) s
+    (.writeMem w) hcons hid hms ACK_WRITE_MEM (toLE 2 0 ++ toLE 2 w.data.length)
+    w.data.length (writeRange (view s.d).mem w.address w.data) (plan (view s.d).txn) rfl
+    (by simp [ackKindOf]) (by simp)
+    (by simp only [List.length_append, toLE_length, Cmd.Cmd.maximumAckLen, Cmd.Cmd.ackScdLen,
+          Cmd.ACK_HEADER_LENGTH, Cmd.MINIMUM_ACK_SCD_LENGTH]; omega)
+    (by simp only [Ack.WriteMem.parse]; exact parseReservedU16_ok _ (by omega))
+    (by simpa only [writeAck] using hsend) hplan
+  have hma : (Cmd.Cmd.writeMem w).maximumAckLen = 16 := by
+    simp [Cmd.Cmd.maximumAckLen, Cmd.Cmd.ackScdLen, Cmd.ACK_HEADER_LENGTH,
+      Cmd.MINIMUM_ACK_SCD_LENGTH]
+  simpa only [hcl, hma, writeAck] using this
+
+end Txn
+
 end CamVerif.C06
